@@ -447,7 +447,7 @@ theorem createFolder_flat_ok (env : Env) (t : Node) (o : CreateOpts) (rootHist :
     (hfirst : ∀ p, (p, false) ∈ visiblePaths (cHit env rootHist o) t →
       FirstOk (fun f => env.H f (fileContent t p)) rootHist.gens (posix p))
     (hexp : ∀ p ∈ expectedPaths rootHist,
-      (∃ d, (p, d) ∈ visiblePaths (cHit env rootHist o) t) ∨ cHit env rootHist o p = true)
+      (∃ d, (p, d) ∈ visiblePaths (cHit env rootHist o) t) ∨ hitAbove (cHit env rootHist o) p = true)
     (hrefs : ∀ g, rootHist.gens.getLast? = some g → g.gen.refs = []) :
     ∃ w, (createFolder env t o).err = none ∧ (createFolder env t o).written = [w] ∧
       (createFolder env t o).report.mismatch = [] ∧ (createFolder env t o).report.missing = [] ∧
